@@ -69,13 +69,13 @@ var mustReject = []string{
 	":conv ThreeRet Name", ":conv TwoRetNoErr Name", ":conv ext.NoSuch Name", ":conv ext.hidden Name", ":conv nopkg.F Name",
 	":style", ":style foo", ":match", ":match x", ":recv", ":recv 1x", ":recv r-x", ":skip", ":skip /[/", ":skip /(/", ":map", ":map Name",
 	":conv", ":conv Good", ":literal", ":literal Name", ":preprocess", ":postprocess", ":reverse",
-	":recv func", ":recv range", ":literal Name )(", ":literal Name \"oops", ":literal Name \"a\" +",
+	":conv v2.Norm Name", ":recv func", ":recv range", ":literal Name )(", ":literal Name \"oops", ":literal Name \"a\" +",
 }
 
 var mustAccept = []string{
 	"", ":style arg", ":match tag", ":recv s", ":skip Name", ":skip /Na.*/", ":conv Good Name", ":conv GoodErr Name", ":conv ext.Norm Name",
 	":literal Name \"x\"", ":preprocess HookGood", ":preprocess HookNoErr", ":preprocess HookVal", ":postprocess HookGood",
-	":reverse\n:style arg", ":unknown foo", ":typecast extra args", ":map Nope ID", ":conv Good Nope",
+	":conv lib.Norm Name", ":reverse\n:style arg", ":unknown foo", ":typecast extra args", ":map Nope ID", ":conv Good Nope",
 }
 
 func inList(l []string, s string) bool {
